@@ -140,7 +140,7 @@ pub fn shrink(plan: &Plan, oracle: &str, max_runs: u32) -> Option<Shrunk> {
     for i in 0..s.best.faults.len() {
         let simpler = match &s.best.faults[i].action {
             Action::Dup { delay_ms, copies } if *copies > 1 => Some(Action::Dup { delay_ms: *delay_ms, copies: 1 }),
-            Action::Hold { .. } | Action::FlipBit { .. } | Action::Truncate { .. } => Some(Action::Drop),
+            Action::Hold { .. } | Action::FlipBit { .. } | Action::Truncate { .. } | Action::Rewrite { .. } => Some(Action::Drop),
             _ => None,
         };
         if let Some(a) = simpler {
